@@ -1048,11 +1048,13 @@ def instance_tests(ctx, J, H, GP):
 # ---------------------------------------------------------------------------------------------------------------------
 # part 3: additions to the environment
 # ---------------------------------------------------------------------------------------------------------------------
-def marker():
+def marker(named=None):
     def m(*a, **k):
         return "C16-MARK"
 
     m._c16_marker = True
+    if named:   # user code names its functions as it likes - also exactly like the conventional method it would replace
+        m.__name__ = m.__qualname__ = named
     return m
 
 
@@ -1096,8 +1098,9 @@ class EnvPath:
         from nunavut.jinja import CodeGenEnvironmentBuilder
 
         kw = {"globals": {}, "filters": {}, "tests": {}}
-        for kind, name in adds:
-            kw[kind][name] = marker()
+        for n, (kind, name) in enumerate(adds):
+            conv = {"filters": "filter_", "tests": "is_"}.get(kind)
+            kw[kind][name] = marker((conv + name) if conv and (len(name) + n) % 2 == 0 else None)
         try:
             if path == "builder":
                 b = CodeGenEnvironmentBuilder(make_loader("pkg", None, "templates", pkg="nunavut.lang." + lang), self.GP.lctx[lang])
